@@ -231,13 +231,14 @@ def relevant_props(f):
     return ALL_PROPS
 
 
-def screen(root, verif, only, part):
+def screen(root, verif, only, part, tag=None):
     muts = {m["id"]: m for m in json.load(open(os.path.join(root, "mutants.json")))}
     status = json.load(open(os.path.join(root, "status.json")))
     k, n = part
-    out_p = os.path.join(root, f"screen_{k}.json")
+    tag = tag if tag is not None else str(k)
+    out_p = os.path.join(root, f"screen_{tag}.json")
     done = json.load(open(out_p)) if os.path.exists(out_p) else {}
-    wt = os.path.join(root, f"ws{k}")
+    wt = os.path.join(root, f"ws{tag}")
     ensure_worktree(wt)
     ids = [int(i) for i, v in status.items() if v == "survived"]
     if only:
@@ -288,7 +289,7 @@ def main():
     elif a[0] == "filter":
         filter_(root, jobs)
     elif a[0] == "screen":
-        screen(root, verif, only, part)
+        screen(root, verif, only, part, a[a.index("--tag") + 1] if "--tag" in a else None)
 
 
 if __name__ == "__main__":
